@@ -107,6 +107,10 @@ EXTERNAL_CONSTANTS = {
     "optlang.interface.INFEASIBLE": "infeasible",
     "optlang.interface.UNBOUNDED": "unbounded",
     "optlang.interface.FEASIBLE": "feasible",
+    "numpy.inf": float("inf"),
+    "numpy.nan": float("nan"),
+    "math.inf": float("inf"),
+    "math.nan": float("nan"),
 }
 
 
@@ -152,6 +156,20 @@ class ExitStackStub:
         while self._cbs:
             fn, args, kwargs = self._cbs.pop()
             self._it.call_value(fn, list(args), dict(kwargs), self._ev, None)
+
+
+class ExtFunc:
+    """A function of a modelled library (or a factory result of one) carried around as a value."""
+
+    def __init__(self, f, name="<library function>"):
+        self.f = f
+        self.name = name
+
+    def __call__(self, *a, **k):
+        return self.f(*a, **k)
+
+    def __repr__(self):
+        return f"<{self.name}>"
 
 
 class PoolStub:
@@ -219,7 +237,7 @@ class ConfigStub:
 class Interp:
     def __init__(self, prog, native: Tuple[type, ...], follow: Sequence[str] = (), stubs: Optional[Dict[str, Callable]] = None, globals_: Optional[Dict[str, Any]] = None, max_depth: int = 8):
         self.prog = prog
-        self.native = tuple(native) + (ExitStackStub, ConfigStub, PoolStub)
+        self.native = tuple(native) + (ExitStackStub, ConfigStub, PoolStub, ExtFunc)
         self.config = ConfigStub()
         self.follow = set(follow)
         self.stubs = dict(stubs or {})
@@ -439,6 +457,18 @@ class Interp:
 
     # ------------------------------------------------------------------ hooks
     def on_attr(self, ev, e: ast.Attribute):
+        root = e
+        while isinstance(root, ast.Attribute):
+            root = root.value
+        if isinstance(root, ast.Name) and root.id not in ev.env:
+            # a dotted external name used as a value: a constant (np.inf) or a function of a modelled library handed
+            # on as an object ({"dense": np.array, ...}[kind])
+            sym = self.prog.resolve(ev.fn.unit, norm(e)) if hasattr(ev, "fn") else None
+            if isinstance(sym, str) and sym in EXTERNAL_CONSTANTS:
+                return EXTERNAL_CONSTANTS[sym]
+            if isinstance(sym, str) and sym in self.stubs and getattr(getattr(e, "_parent", None), "func", None) is not e:
+                stub = self.stubs[sym]
+                return ExtFunc(lambda *a, **k: stub(self, ev, e, list(a), k), sym)
         base = ev.eval(e.value)
         if isinstance(base, self.native) or (isinstance(base, type) and issubclass(base, self.native)):
             try:
